@@ -344,6 +344,13 @@ def gen_C13(w, tier):
                 d, o3 = R.sub(a, b)
                 back, o4 = R.add(d, b)
                 must(o4.startswith("ok") and R.eq(back, a) == "ok true", "(a-b)+b != a: %s" % o4)
+        if has_neg:
+            for a in els[:6]:
+                amz, o = R.sub(a, zero)
+                must(o.startswith("ok") and o.split()[2] in ("elem", "zero") and R.eq(amz, a) == "ok true", "a - Zero is not the full element a: %s" % o)
+                if o.startswith("ok"):
+                    _, o2 = R.smul(amz, -1)
+                    must(o2.startswith("ok"), "(a - Zero).scalarmult(-1) raised: %s" % o2)
         for a in els:
             az, o = R.add(a, zero)
             za, o2 = R.add(zero, a)
@@ -435,6 +442,38 @@ def gen_C13(w, tier):
         if len(scal) > 40 and not big:
             scal = r.sample(scal, 40) + [-q, -1, 0, q, 2 * q]
         laws(ps, name, all_elems, scal, 200 if not big else 1200, 60 if not big else 600, ("toy-exhaustive", "set:toy" + ps.kind))
+    # `==` must be value equality, not equality of hashes: distinct members congruent modulo CPython's hash modulus
+    import sys as _sys
+    M = _sys.hash_info.modulus
+    sp = None
+    cand = (1 << 67) + 3
+    while sp is None:
+        if cand % 4 == 3 and refmath.is_probable_prime((cand - 1) // 2, 8) and refmath.is_probable_prime(cand, 8):
+            sp = cand
+        cand += 4
+    gid = w.next_gid + 200
+    sc = w.scenario("C13/hash-colliding-elements", ("hash-collision",))
+    fails = []
+    if sc.do("group %d int %d %d %d" % (gid, sp, (sp - 1) // 2, 4)) == "ok":
+        es = sp.bit_length() // 8 + 1
+        found = 0
+        for _ in range(40):
+            a = pow(r.randrange(2, sp), 2, sp)
+            for k_ in range(1, 70):
+                b = a + k_ * M
+                if b < sp and pow(b, (sp - 1) // 2, sp) == 1:
+                    ea, eb = w.eid(), w.eid()
+                    oa = sc.do("e.dec %d %d %s" % (ea, gid, hx(a.to_bytes((sp.bit_length() + 7) // 8, "big"))))
+                    ob = sc.do("e.dec %d %d %s" % (eb, gid, hx(b.to_bytes((sp.bit_length() + 7) // 8, "big"))))
+                    if oa.startswith("ok") and ob.startswith("ok") and sc.do("e.eq %d %d" % (ea, eb)) != "ok false":
+                        fails.append("distinct elements %d and %d compare equal" % (a, b))
+                    found += 1
+                    break
+            if found >= 6:
+                break
+    sc.meta["fails"] = fails
+    sc.pred = lambda io, sc: (sc.meta["fails"][0] if sc.meta["fails"] else None)
+    out.append(sc)
     # shipped groups: edge operands
     for name in ("ed", "1024", "2048", "3072"):
         ps = w.gs[name]
